@@ -1,0 +1,224 @@
+//! Verification hook (compiled only with `--cfg brotli_verif`): drop-in replacements for
+//! `std::sync::{Mutex, Condvar}` and `std::thread::{spawn, JoinHandle}` as used by
+//! `worker_pool.rs`.
+//!
+//! A thread is *controlled* when a `Controller` has been attached to it with [`enter`]
+//! (threads spawned by a controlled thread through [`spawn`] inherit the controller).
+//! A controlled thread announces every lock acquisition, condition-variable wait,
+//! thread join and user yield point to the controller and blocks until the controller
+//! hands it the token; `notify_all`, the end of every critical section (with an
+//! observation of the guarded value), thread creation and thread exit are reported
+//! without blocking.  Real OS threads and the real primitives are still used underneath,
+//! so a wrong controller shows up as contention, not as undefined behaviour.
+//!
+//! A thread that is not controlled falls straight through to `std`, so code built with
+//! the cfg behaves as usual unless a harness attaches a controller.
+#![cfg(feature = "std")]
+
+use core::ops::{Deref, DerefMut};
+use std;
+use std::cell::RefCell;
+use std::sync::{Arc, LockResult, PoisonError};
+
+/// What a controlled thread tells its controller.
+#[derive(Clone, Copy, Debug, PartialEq, Eq)]
+pub enum Event {
+    /// blocking: the thread is about to lock the mutex
+    Acquire,
+    /// report: a critical section ended (guard dropped); observation of the guarded value
+    Release([u64; 4]),
+    /// blocking: `Condvar::wait` - the mutex has been released (observation taken just
+    /// before); returns once the thread has been notified (or spuriously woken) and scheduled
+    Wait([u64; 4]),
+    /// report: `Condvar::notify_all`
+    NotifyAll,
+    /// report: this thread finished (normally or by unwinding)
+    Exit,
+    /// blocking: `JoinHandle::join` on the thread with the given id
+    Join(usize),
+    /// blocking: a yield point placed by the harness (e.g. inside a job body)
+    User(u64),
+}
+
+pub trait Controller: Send + Sync {
+    /// called by the parent inside `spawn`, before the OS thread exists; returns the child's id
+    fn new_thread(&self, parent: usize) -> usize;
+    /// non-blocking notification
+    fn report(&self, tid: usize, ev: Event);
+    /// returns when the controller schedules thread `tid`
+    fn block(&self, tid: usize, ev: Event);
+}
+
+/// Values of the guarded state reported at the end of each critical section.
+pub trait Observe {
+    fn verif_observe(&self) -> [u64; 4];
+}
+
+thread_local! {
+    static CTX: RefCell<Option<(Arc<dyn Controller>, usize)>> = RefCell::new(None);
+}
+
+fn ctx() -> Option<(Arc<dyn Controller>, usize)> {
+    CTX.try_with(|c| c.borrow().clone()).unwrap_or(None)
+}
+
+/// Attach the calling thread to `ctl` under the id `tid`.
+pub fn enter(ctl: Arc<dyn Controller>, tid: usize) {
+    CTX.with(|c| *c.borrow_mut() = Some((ctl, tid)));
+}
+
+/// Detach the calling thread (reports `Exit`).
+pub fn leave() {
+    if let Some((ctl, tid)) = ctx() {
+        let _ = CTX.try_with(|c| *c.borrow_mut() = None);
+        ctl.report(tid, Event::Exit);
+    }
+}
+
+/// Harness-defined yield point; a no-op on uncontrolled threads.
+pub fn yield_point(code: u64) {
+    if let Some((ctl, tid)) = ctx() {
+        ctl.block(tid, Event::User(code));
+    }
+}
+
+pub struct Mutex<T: Observe> {
+    inner: std::sync::Mutex<T>,
+}
+
+pub struct MutexGuard<'a, T: Observe + 'a> {
+    g: Option<std::sync::MutexGuard<'a, T>>,
+    m: &'a std::sync::Mutex<T>,
+}
+
+fn relock<'a, T: Observe>(m: &'a std::sync::Mutex<T>) -> LockResult<MutexGuard<'a, T>> {
+    match m.lock() {
+        Ok(g) => Ok(MutexGuard { g: Some(g), m }),
+        Err(p) => Err(PoisonError::new(MutexGuard {
+            g: Some(p.into_inner()),
+            m,
+        })),
+    }
+}
+
+impl<T: Observe> Mutex<T> {
+    pub fn new(t: T) -> Self {
+        Mutex {
+            inner: std::sync::Mutex::new(t),
+        }
+    }
+    pub fn lock(&self) -> LockResult<MutexGuard<'_, T>> {
+        if let Some((ctl, tid)) = ctx() {
+            ctl.block(tid, Event::Acquire);
+        }
+        relock(&self.inner)
+    }
+}
+
+impl<'a, T: Observe> Deref for MutexGuard<'a, T> {
+    type Target = T;
+    fn deref(&self) -> &T {
+        self.g.as_ref().unwrap()
+    }
+}
+impl<'a, T: Observe> DerefMut for MutexGuard<'a, T> {
+    fn deref_mut(&mut self) -> &mut T {
+        self.g.as_mut().unwrap()
+    }
+}
+impl<'a, T: Observe> Drop for MutexGuard<'a, T> {
+    fn drop(&mut self) {
+        if let Some(g) = self.g.take() {
+            if let Some((ctl, tid)) = ctx() {
+                let obs = g.verif_observe();
+                drop(g);
+                ctl.report(tid, Event::Release(obs));
+            }
+        }
+    }
+}
+
+pub struct Condvar {
+    inner: std::sync::Condvar,
+}
+
+impl Condvar {
+    pub fn new() -> Self {
+        Condvar {
+            inner: std::sync::Condvar::new(),
+        }
+    }
+    pub fn notify_all(&self) {
+        if let Some((ctl, tid)) = ctx() {
+            ctl.report(tid, Event::NotifyAll);
+        }
+        self.inner.notify_all();
+    }
+    pub fn wait<'a, T: Observe>(
+        &self,
+        mut guard: MutexGuard<'a, T>,
+    ) -> LockResult<MutexGuard<'a, T>> {
+        let m = guard.m;
+        let g = guard.g.take().unwrap();
+        if let Some((ctl, tid)) = ctx() {
+            let obs = g.verif_observe();
+            drop(g);
+            ctl.block(tid, Event::Wait(obs));
+            relock(m)
+        } else {
+            match self.inner.wait(g) {
+                Ok(g) => Ok(MutexGuard { g: Some(g), m }),
+                Err(p) => Err(PoisonError::new(MutexGuard {
+                    g: Some(p.into_inner()),
+                    m,
+                })),
+            }
+        }
+    }
+}
+
+pub struct JoinHandle<T> {
+    inner: std::thread::JoinHandle<T>,
+    tid: Option<usize>,
+}
+
+impl<T> JoinHandle<T> {
+    pub fn join(self) -> std::thread::Result<T> {
+        if let (Some(child), Some((ctl, tid))) = (self.tid, ctx()) {
+            ctl.block(tid, Event::Join(child));
+        }
+        self.inner.join()
+    }
+}
+
+struct ExitGuard;
+impl Drop for ExitGuard {
+    fn drop(&mut self) {
+        leave();
+    }
+}
+
+pub fn spawn<F, T>(f: F) -> JoinHandle<T>
+where
+    F: FnOnce() -> T + Send + 'static,
+    T: Send + 'static,
+{
+    match ctx() {
+        None => JoinHandle {
+            inner: std::thread::spawn(f),
+            tid: None,
+        },
+        Some((ctl, parent)) => {
+            let child = ctl.new_thread(parent);
+            let inner = std::thread::spawn(move || {
+                enter(ctl, child);
+                let _exit = ExitGuard;
+                f()
+            });
+            JoinHandle {
+                inner,
+                tid: Some(child),
+            }
+        }
+    }
+}
